@@ -517,6 +517,13 @@ func c08Strata() []*gast.Grammar {
 		mk(r("S", gast.S(gast.Lab("a", gast.Ref("E1")), gast.Star(gast.Dot()))),
 			r("E1", gast.C(act(gast.S(gast.Lab("a", gast.Ref("E1")), gast.L("+"), gast.Lab("b", gast.Ref("At"))), 1, mon.Spec{}), gast.S(gast.Lab("a", gast.Ref("E1")), gast.L("-"), gast.Ref("At")), gast.Ref("At"), gast.Star(gast.L(" ")))),
 			r("At", act(gast.Plus(gast.Cl(&gast.ClassSpec{Ranges: [][2]rune{{'0', '9'}}})), 2, mon.Spec{R: 2}))),
+		// recursive tails that start with a case-insensitive literal or class, written in either case
+		// (the generator lower-cases them; the input keeps its own case)
+		mk(r("S", gast.S(gast.Lab("a", gast.Ref("Cond")), gast.NotE(gast.Dot()))),
+			r("Cond", gast.C(act(gast.S(gast.Lab("a", gast.Ref("Cond")), gast.Li("AND"), gast.Lab("b", gast.Ref("Cmp"))), 1, mon.Spec{}),
+				act(gast.S(gast.Lab("a", gast.Ref("Cond")), gast.Li("or"), gast.Lab("b", gast.Ref("Cmp"))), 2, mon.Spec{}),
+				act(gast.S(gast.Lab("a", gast.Ref("Cond")), gast.Cl(&gast.ClassSpec{Chars: []rune("XÉ"), IgnoreCase: true}), gast.Lab("b", gast.Ref("Cmp"))), 3, mon.Spec{}), gast.Ref("Cmp"))),
+			r("Cmp", act(gast.S(gast.Plus(gast.Cl(&gast.ClassSpec{Ranges: [][2]rune{{'0', '9'}}})), gast.Star(gast.L(" "))), 4, mon.Spec{R: 2}))),
 	}
 }
 
